@@ -35,7 +35,8 @@ import Pandora.Bridge.C12Left
 import Pandora.Bridge.C12Wait
 import Pandora.Proofs.C12Wait
 import Pandora.Props.C02
-import Pandora.Props.C04
+import Pandora.Proofs.C12R6
+import Pandora.Bridge.C12Close
 
 namespace Pandora.Props.C12
 open Pandora.Model.C04 Pandora.Model.C12 Pandora.Proofs.C04 Pandora.Proofs.C12 Pandora.Go.C12
@@ -816,7 +817,8 @@ example : Gen.Startup.awaitLoopGoesOn (wrun genTab (WSt.init genTab) [.start, .a
 end Wait
 
 /-! ## Round 6 — compositions with the neighbouring properties' models (C04: the Waiter of an instance; C02: the shared RPS profile
-under concurrent callers).  Nothing of those models is copied or assumed: their definitions and theorems are imported, their
+under concurrent callers).  Nothing of those models is copied or assumed: their definitions (and C02's theorems) are imported — three short facts about C04's
+`runLoop` are proved in `Proofs/C12R6.lean` over C04's definitions and lemmas rather than imported from the module `Props.C04` —, their
 regenerated sources (`Gen.Waiter`, `Gen.C02Src`, `Gen.C02Cb` …) are regenerated by C12's own check too (props/C12.json). -/
 
 section round6
@@ -848,13 +850,13 @@ theorem C12_keeps_firing_tokens_waited_in_time (d : Bool) (w : Pandora.Model.C04
     intro s hs
     cases d with
     | false =>
-      rw [Pandora.Props.C04.C04_off] at hs
+      rw [Pandora.Proofs.C12R6.off_all_fired] at hs
       simp at hs
     | true =>
-      obtain ⟨n', h1, h2⟩ := Pandora.Props.C04.C04_not_discarded_if_fresh .fresh w h hc it s hs
+      obtain ⟨n', h1, h2⟩ := Pandora.Proofs.C12R6.not_discarded_if_fresh .fresh w h hc it s hs
       rw [htok] at h1; cases h1; omega
   refine ⟨?_, hnd, fun w' it' => Pandora.Bridge.Waiter.iteration_eq d w' it'⟩
-  have hm := Pandora.Props.C04.C04_every_drawn_token_acted .fresh d w h
+  have hm := Pandora.Proofs.C12R6.every_drawn_token_acted .fresh d w h
   rw [← hm] at hit
   obtain ⟨ev, hev, hiter⟩ := List.mem_map.mp hit
   cases ev with
@@ -910,6 +912,67 @@ example : ((Pandora.Model.C02.CbW.wrun Pandora.Proofs.C02Cb.absInner
     Pandora.Proofs.C02Par.ClockOK 0 [(0, 9), (0, 9), (1, 9), (1, 9), (0, 9), (0, 9), (0, 9), (1, 9), (0, 9)] := by
   refine ⟨by decide, by simp [Pandora.Proofs.C02Par.ClockOK]⟩
 
+/-- **(round 6, tie) An instance is closed and counted on every path, by the source.**  What the pool layer takes for granted when
+it turns the end of `instance.Run` — by return, by error, by a recovered panic (`recoversShootPanic`) — into exactly one result,
+one closed gun and one `InstanceFinish`: in EVERY function body of core/engine that calls `Run` on an instance, `Close()` of that
+instance is deferred before the call; `InstanceStart` is counted unconditionally and `InstanceFinish` inside a deferred function
+that is registered before the start is counted, and nowhere else; `newInstance` closes a gun whose `Bind` failed.  Regenerated
+(`gen -area c12close`), so an edit of that cleanup code re-opens this obligation even when no generated input has a panicking gun. -/
+theorem C12_instance_cleanup_is_source :
+    (Gen.C12Close.runCallers ≠ [] ∧ ∀ r ∈ Gen.C12Close.runCallers, r.2 = true) ∧
+    Gen.C12Close.startCountedUnconditionally = true ∧ Gen.C12Close.finishCountedInDefer = true ∧
+    Gen.C12Close.finishDeferBeforeStartCount = true ∧ Gen.C12Close.finishCountedElsewhere = 0 ∧
+    Gen.C12Close.closesGunWhenBindFails = true ∧ Gen.Startup.recoversShootPanic = true :=
+  ⟨Bridge.C12Close.runCallers_defer_close, Bridge.C12Close.counting_and_bind_cleanup.1, Bridge.C12Close.counting_and_bind_cleanup.2.1,
+   Bridge.C12Close.counting_and_bind_cleanup.2.2.1, Bridge.C12Close.counting_and_bind_cleanup.2.2.2.1,
+   Bridge.C12Close.counting_and_bind_cleanup.2.2.2.2, rfl⟩
+
+/-- what the regenerated `instance.Run` of C12's area (`Gen.Startup.instanceRun`) returns for the outcome C04's area reads off the
+same pass: the loop ended at its head ⇒ `ctx.Err()`; ammo refused ⇒ the body's error; skip / shoot / discard ⇒ still looping -/
+def runRetOf : Pandora.Model.C04.Outcome → RunRet
+  | .loopEnd => .ctxErr
+  | .outOfAmmo => .body .outOfAmmo
+  | _ => .running
+
+/-- **(round 6, composition with C04) The two regenerated readings of the loop of `instance.Run` agree, pass by pass.**  C12's
+area `startup` reads the loop as "when does `Run` RETURN, and what" (`instanceRun`, the exits of the pool layer:
+`C12_exit_reason_is_source`); C04's area `waiter` reads it as "what is DONE in a pass" (`iteration`: skip / shoot / discard, with
+the Waiter's state).  For every waiter state, every pass, `discard_overflow` on or off: fed with the same answers (`IsFinished` of
+the loop head, `Acquire`, the result of the regenerated `Wait`), `instanceRun` returns exactly when `iteration` ends the loop, with
+the matching result, and otherwise the instance is still running — so a pool-layer pass that does not end the instance is one of
+C04's skip / shoot / discard passes, of which `C12_keeps_firing_tokens_waited_in_time` says which; and both areas read the same
+`IsFinished`. -/
+theorem C12_two_readings_of_instance_loop_agree (d : Bool) (w : Pandora.Model.C04.Waiter) (it : Pandora.Model.C04.Iter)
+    (ctxDone : Bool) (left : Int) (hfin : it.finished = Gen.Startup.IsFinished ctxDone left) :
+    Gen.Startup.instanceRun [{ ctxDone := ctxDone, left := left, ammoOk := it.ammoOk, waitOk := (Gen.Waiter.Wait w it.env).2 }] =
+      runRetOf (Gen.Waiter.iteration d w it).2 ∧
+    Gen.Startup.IsFinished ctxDone left = Gen.Waiter.IsFinished ctxDone left := by
+  refine ⟨?_, ?_⟩
+  · unfold Gen.Startup.instanceRun Gen.Waiter.iteration Gen.Startup.runBody
+    rw [← hfin]
+    by_cases hf : it.finished = true
+    · simp [hf, runRetOf]
+    · by_cases ha : it.ammoOk = true
+      · by_cases hk : (Gen.Waiter.Wait w it.env).2 = true
+        · simp only [hf, ha, hk]
+          by_cases hs : ((!d) || (!(Gen.Waiter.IsSlowDown (Gen.Waiter.Wait w it.env).1 it.ctxDoneSlow))) = true
+          · simp [hs, runRetOf, Gen.Startup.instanceRun]
+          · simp [hs, runRetOf, Gen.Startup.instanceRun]
+        · simp [hf, ha, hk, runRetOf, Gen.Startup.instanceRun]
+      · simp [hf, ha, runRetOf]
+  · unfold Gen.Startup.IsFinished Gen.Waiter.IsFinished
+    cases ctxDone
+    · by_cases h : left = 0 <;> simp [h]
+    · simp
+
+/-- non-vacuity: the second pass of the hiccup history (a discarded token: the instance keeps running), and a pass that finds the
+profile exhausted (`Left() == 0`) -/
+example : (hiccup[1]!).finished = Gen.Startup.IsFinished false 3 ∧
+    ({ finished := true } : Pandora.Model.C04.Iter).finished = Gen.Startup.IsFinished false 0 ∧
+    (Gen.Waiter.iteration true { lastNow := 0 } (hiccup[1]!)).2 = .discard Pandora.Model.C04.discardedShootSample := by decide
+
 end round6
+
+
 
 end Pandora.Props.C12
